@@ -68,7 +68,11 @@ Proof. exact reserved_keys_refused_lemma. Qed.
 Print Assumptions C11_reserved_keys_refused.
 
 (* C11.2  save is pure: neither the states nor the metadata objects change, so any number of further saves
-   with the same objects (to any path) are accepted and write the same record. *)
+   with the same objects (to any path) are accepted and write the same record.
+   DEFINITIONAL: restates the model — in Store.v [save] works on [md_copy] and only calls [upd_files], so the
+   model cannot mutate metadata or states by construction; that the CODE does not is decided by the purity oracle of
+   harness/checks/c11.py (metadata deep-compared before/after every save, fixed two-save histories, ModelSaver inside
+   a real fit) and by the per-step comparison of the metadata objects with the model. *)
 Theorem C11_save_is_pure : forall s f md H,
   snd (run_op (Save s f md) H) = Ok ->
   let H1 := fst (run_op (Save s f md) H) in
@@ -80,12 +84,13 @@ Theorem C11_save_is_pure : forall s f md H,
 Proof. exact save_is_pure_lemma. Qed.
 Print Assumptions C11_save_is_pure.
 
+(* definitional: restates the model *)
 Theorem C11_refused_save_has_no_effect : forall s f md H e,
   snd (run_op (Save s f md) H) = Err e -> fst (run_op (Save s f md) H) = H.
 Proof. exact save_error_no_effect. Qed.
 Print Assumptions C11_refused_save_has_no_effect.
 
-(* only writes to a path change what is stored under it *)
+(* only writes to a path change what is stored under it.  definitional: restates the model *)
 Theorem C11_files_change_only_by_writes : forall h H f,
   no_write f h -> assoc f (h_files (fst (run h H))) = assoc f (h_files H).
 Proof. exact run_file_frame. Qed.
@@ -100,6 +105,7 @@ Theorem C11_refinement_to_snapshot_spec : forall h H A,
 Proof. exact refinement_lemma. Qed.
 Print Assumptions C11_refinement_to_snapshot_spec.
 
+(* definitional: restates the specification machine *)
 Theorem C11_spec_snapshots_immutable : forall o A f,
   writes_to o <> Some f -> assoc f (snd (fst (arun_op o A))) = assoc f (snd A).
 Proof. exact spec_files_immutable. Qed.
@@ -110,11 +116,22 @@ Theorem C11_wf_invariant : forall h H, wf H -> wf (fst (run h H)).
 Proof. exact run_wf. Qed.
 Print Assumptions C11_wf_invariant.
 
+(* network identities stay below the allocation counter on every history; together with [h_next H3 <= i] in
+   C11_autoload_after_save this makes the auto-constructed state's networks DISTINCT from every existing one *)
+Theorem C11_network_ids_below_counter_invariant : forall h H, ids_ok H -> ids_ok (fst (run h H)).
+Proof. exact run_ids_ok. Qed.
+Print Assumptions C11_network_ids_below_counter_invariant.
+
+(* NOT theorems (correspondence / oracle only): bit-identity through torch.save/torch.load (trusted, observed per run);
+   ModelSaver's callable / dict / None dispatch (executed for real, modelled as Save / SaveMdOnly); loads across
+   kinds and any other load the property does not call "compatible" — for those the check compares only
+   "raises vs does not raise" and nothing about the state afterwards. *)
+
 (* non-vacuity: a well-formed heap with a complex state (nh <> nv, user-added unitary, non-empty metadata) on
    which save, save-again, autoload and load are all accepted; a reserved key is refused. *)
 Theorem C11_hypotheses_satisfiable :
-  wf ex_heap /\ ud_is_dict ex_state /\ refines ex_heap (core ex_heap, []) /\
+  wf ex_heap /\ ids_ok ex_heap /\ ud_is_dict ex_state /\ refines ex_heap (core ex_heap, []) /\
   snd (run [Save 0 5 (Some 0); Save 0 5 (Some 0); Autoload Complex 5 1; Load 0 5] ex_heap) = [Ok; Ok; Ok; Ok] /\
   snd (run [MutateMd 0 K_UD 1; Save 0 5 (Some 0)] ex_heap) = [Ok; Err EValue].
-Proof. exact (conj ex_heap_wf (conj ex_ud_is_dict (conj ex_refines_initial (conj ex_save_twice_ok ex_reserved_refused)))). Qed.
+Proof. exact (conj ex_heap_wf (conj ex_ids_ok (conj ex_ud_is_dict (conj ex_refines_initial (conj ex_save_twice_ok ex_reserved_refused))))). Qed.
 Print Assumptions C11_hypotheses_satisfiable.
